@@ -211,3 +211,111 @@ def install_addterm_monitor(rec):
 
     Equation.AddTerm = AddTerm
     return [(Equation, 'AddTerm', orig)]
+
+
+# ---------------------------------------------------------------------------------------------
+# C16 / C19: readers (in situ)
+# ---------------------------------------------------------------------------------------------
+
+PRIORITY = ('iteration', 'iteration_error', 'iteration_abs_change', 'k', 't')
+
+
+def reference_table(holder, fmt):
+    """Reference renderer: (header list, rows as lists of cell strings)."""
+    names = sorted(holder.keys())
+    head = [p for p in PRIORITY if p in names]
+    rest = [n for n in names if n not in head]
+    header = head + rest
+    if not header:
+        return [], []
+    n = min(len(holder[x]) for x in header)
+    rows = []
+    for i in range(n):
+        rows.append([fmt % (holder[x][i],) for x in header])
+    return header, rows
+
+
+def parse_table(text):
+    if text == '':
+        return [], []
+    lines = text.split('\n')
+    if lines and lines[-1] == '':
+        lines = lines[:-1]
+    header = lines[0].split('\t')
+    rows = [ln.split('\t') for ln in lines[1:]]
+    return header, rows
+
+
+def snapshot_holders(solver):
+    import copy
+    return {'main': copy.deepcopy(dict(solver.TimeSeries)),
+            'step': copy.deepcopy(dict(solver.TimeSeriesStepTrace)),
+            'initial': copy.deepcopy(dict(solver.TimeSeriesInitialSteadyState))}
+
+
+def same_holders(a, b):
+    # NaN-tolerant equality of snapshots
+    return repr(a) == repr(b)
+
+
+def install_reader_monitors(rec):
+    from sfc_models.models import Model
+    from sfc_models.utils import TimeSeriesHolder
+    o_get = Model.GetTimeSeries
+    o_csv = TimeSeriesHolder.GenerateCSVtext
+
+    def GetTimeSeries(self, series, cutoff=None, group_of_series='main'):
+        rec.count('gettimeseries.calls')
+        try:
+            before = snapshot_holders(self.EquationSolver)
+        except Exception:
+            before = None
+            rec.count('monitor_error')
+        out = o_get(self, series, cutoff=cutoff, group_of_series=group_of_series)
+        if before is not None:
+            try:
+                after = snapshot_holders(self.EquationSolver)
+                if not same_holders(before, after):
+                    rec.violate('read_changed_stored_results',
+                                {'where': 'in-situ GetTimeSeries', 'series': series, 'cutoff': cutoff,
+                                 'group': group_of_series})
+                eff = cutoff if cutoff is not None else self.TimeSeriesCutoff
+                ref = list(before[group_of_series][series])
+                if eff is not None:
+                    ref = ref[0:eff + 1]
+                if self.TimeSeriesSupressTimeZero:
+                    ref = ref[1:]
+                if repr(list(out)) != repr(ref):
+                    rec.violate('read_wrong_slice', {'where': 'in-situ GetTimeSeries', 'series': series,
+                                                     'cutoff': eff, 'got': list(out)[:8], 'expected': ref[:8]})
+                rec.count('gettimeseries.post_evaluated')
+            except Exception:
+                rec.count('monitor_error')
+        return out
+
+    def GenerateCSVtext(self, format_str='%.5g'):
+        rec.count('csvtext.calls')
+        import copy
+        try:
+            before = copy.deepcopy(dict(self))
+        except Exception:
+            before = None
+        out = o_csv(self, format_str)
+        if before is not None:
+            try:
+                if repr(before) != repr(dict(self)):
+                    rec.violate('render_changed_stored_results', {'where': 'in-situ GenerateCSVtext'})
+                h, rows = reference_table(before, format_str)
+                gh, grows = parse_table(out)
+                if gh != h or grows != rows:
+                    rec.violate('table_not_faithful', {'where': 'in-situ GenerateCSVtext',
+                                                       'header_got': gh[:12], 'header_expected': h[:12],
+                                                       'n_rows_got': len(grows), 'n_rows_expected': len(rows)})
+                rec.count('csvtext.post_evaluated')
+            except Exception:
+                rec.count('monitor_error')
+        return out
+
+    Model.GetTimeSeries = GetTimeSeries
+    TimeSeriesHolder.GenerateCSVtext = GenerateCSVtext
+    return [(Model, 'GetTimeSeries', o_get), (TimeSeriesHolder, 'GenerateCSVtext', o_csv)]
